@@ -33,7 +33,7 @@ REQUIRED = {"verdict.matches_model": {"quick": 1500, "thorough": 100000}, "verdi
 REQUIRED_SEEN = {"only_cause": ["failed_scenario", "aborted", "aborted_without_failed_scenario", "hook_failure", "cleanup_failure",
                                 "undefined_dry_run"],
                  "verdict": ["failed", "success"], "file_filter": ["include+exclude:file_matching_both"],
-                 "nested_sub_step_outcome": ["fail", "error", "pending", "undefined", "pass"], "tag_name_class": ["contains_operator_word"],
+                 "nested_sub_step_outcome": ["fail", "error", "pending", "undefined", "pass"], "tag_name_class": ["contains_operator_word", "rendered_from_special_placeholder"],
                  "raising_hook_decoration": ["capture"], "location_selection": ["twins_addressed_by_line"], "raising_cleanup_registered_as": ["own_function", "same_function_other_arguments"]}
 NSHARDS = {"quick": 16, "thorough": 16}
 NONTRIVIAL = "see RULE"
@@ -337,7 +337,25 @@ def run(spec, mon):
             # tag names that CONTAIN the operator words of the new dialect (android, order, notify, sandbox), old- and new-style syntax
             alt = ["android", "order", "notify", "sandbox", "b"]
             gen = dict(gen, tags=alt)
+        if i % 9 == 2:
+            # outlines tagged with the documented special placeholders (@r<row.index>, @q<row.id>, @n<examples.name> ...) and a
+            # selection that names the RENDERED tags of single rows
+            alt = ["r1", "r2", "q1.1", "q1.2", "q2.1", "nE1", "nE2", "a", "b"]
+            gen = dict(gen, p_reserved_tag=0.7, p_outline=0.6)
         case = RB.gen_case(rng, gen=gen, p_user_skip=0.15, p_names=0.15)
+        if i % 9 == 2:
+            ast, args = RB.random_expr(rng, tags=alt)
+            case["cfg"]["tags"] = ast
+            case["args"] = args + [a for a in case["args"] if not a.startswith("--tags")]
+            def _outlines(c):
+                for it in c["items"]:
+                    if it["kind"] == "rule":
+                        for x in _outlines(it):
+                            yield x
+                    elif it["kind"] == "outline":
+                        yield it
+            if any(t[:1] in "rqn" and "<" in t for f in case["program"]["features"] for it in _outlines(f) for t in it["tags"]):
+                mon.seen("tag_name_class", "rendered_from_special_placeholder")
         if i % 9 == 5:
             ast, args = RB.random_expr(rng, tags=alt)
             case["cfg"]["tags"] = ast
